@@ -478,6 +478,20 @@ def dstepCore (st : DState) (line : String) : DState × Option String :=
       ({ st with minsts := (i, r.1) :: st.minsts.filter (·.1 != i) },
        some (match r.2 with | [p, q] => q.res.toStr ++ "/" ++ posStr p | _ => "?"))
     | _, _, _, _, _ => bad st line
+  -- a batch of two whose FIRST entry addresses another account (registered in the model only if it already exists there),
+  -- the duty account second
+  | ["iattsu", i, acctX, dX, acct, d] =>
+    match i.toNat?, unhexStr acctX, parseAtt (dX.splitOn ","), unhexStr acct, parseAtt (d.splitOn ",") with
+    | some i, some acctX, some dX, some acct, some d =>
+      let wa := match walletAndAccount acct with
+        | some p => p
+        | none => ("", "")
+      let b := clusterInst st.minsts i wa.1 wa.2
+      let r := signAtts b "client1" [({ name := acctX }, dX), ({ name := acct }, d)] {}
+      ({ st with minsts := (i, r.1) :: st.minsts.filter (·.1 != i) },
+       some (match r.2 with | [p, q] => p.res.toStr ++ "/" ++ posStr q | _ => "?"))
+    | _, _, _, _, _ => bad st line
+  | ["sharepubs", _] => (st, some "-")
   | ["iprop", i, acct, d] =>
     match i.toNat?, unhexStr acct, parseProp (d.splitOn ",") with
     | some i, some acct, some d =>
@@ -513,6 +527,15 @@ def dstepCore (st : DState) (line : String) : DState × Option String :=
     match unhex r, unhex d with
     | some r, some d => (st, some (match Ssz.signingRoot r d with | some x => hex x | none => "-"))
     | _, _ => bad st line
+  -- the signing root of an attestation / proposal request's own data (comma-separated fields as in the ops)
+  | ["aroot", d] =>
+    match parseAtt (d.splitOn ",") with
+    | some d => (st, some (match d.signingRoot with | some x => hex x | none => "-"))
+    | none => bad st line
+  | ["proot", d] =>
+    match parseProp (d.splitOn ",") with
+    | some d => (st, some (match d.signingRoot with | some x => hex x | none => "-"))
+    | none => bad st line
   | ["jquorum", t, c1, c2] =>
     match t.toNat?, c1.toNat?, c2.toNat? with
     | some t, some c1, some c2 =>
@@ -536,6 +559,8 @@ def dstepCore (st : DState) (line : String) : DState × Option String :=
     match ms.toNat? with
     | some ms => ({ st with cluster := Dkg.tick st.cluster ms }, some "ok")
     | none => bad st line
+  -- the deadline carried by the callers' request contexts: no effect on the state machine
+  | ["ctxdl", _] => (st, some "ok")
   -- Lagrange recovery of the group secret from extracted shares, over Z_r: `lagrange id:sharehex …`
   | "lagrange" :: pts =>
     let ps := pts.mapM (fun p => match p.splitOn ":" with
@@ -557,6 +582,8 @@ def dstepCore (st : DState) (line : String) : DState × Option String :=
       | ["otherca", cn] => some (.cert false true cn)
       -- issued by an authority in the host's trust store, which is not the configured one
       | ["hosttrusted", cn] => some (.cert false true cn)
+      -- a certificate of another authority offered inside a session-resumption ticket forged under a guessable ticket key
+      | ["forgedticket", _, cn] => some (.cert false true cn)
       | ["expired", cn] => some (.cert true false cn)
       | ["notyetvalid", cn] => some (.cert true false cn)
       | ["valid", cn] => some (.cert true true cn)
@@ -572,6 +599,8 @@ def dstepCore (st : DState) (line : String) : DState × Option String :=
       | some (some cn) => (st, some ("served " ++ cn))
   | ["locktrace"] => (st, none)
   | ["nocache"] => (st, none)
+  | ["stallfirst", _] => (st, none)
+  | ["pause", _] => (st, some "ok")
   | ["ltrace"] =>
     let tok (t : LTok) : String := match t with
       | .pre => "P" | .post => "Q" | .fetch => "F" | .store => "S" | .stored => "X" | .sign => "G"
